@@ -7,7 +7,7 @@ use crate::ops::{self, *};
 use crate::shim;
 use crate::st::{self, *};
 use crate::text::{self, *};
-use lean_string::LeanString;
+use lean_string::{LeanString, ReserveError};
 
 /// C01/C02/C03/C10: one operation from a canonical state; result and post-state equal the model,
 /// INV holds on every handle, non-targets are untouched, the epilogue frees everything once.
@@ -129,8 +129,10 @@ pub fn grow(kind: u8, fam: u8, n0: usize, cap: usize, ns: u8, len: usize, la: us
         kani::cover!(cap1 == amort && amort > need, "grew by the 1.5x rule");
         kani::cover!(true, "growth event");
     } else {
-        assert!(cap1 == cap0, "[C12] capacity changed without an allocator request");
-        assert!(len0 + add <= cap0, "[C12] no request although the result does not fit the old capacity");
+        // no request: either nothing changed, or borrowed static text moved into the inline bytes
+        let inline_now = !s.t.is_heap_allocated() && s.t.as_str().as_ptr() == (&s.t as *const LeanString as *const u8);
+        assert!(cap1 == cap0 || (inline_now && cap1 == 16), "[C12] capacity changed without an allocator request");
+        assert!(len0 + add <= cap1, "[C12] no request although the result does not fit the capacity");
     }
     epilogue(s, tf);
 }
@@ -194,20 +196,27 @@ pub fn within_cap(kind: u8, fam: u8, n0: usize, cap: usize, len: usize, cop: u8,
     epilogue(s, true);
 }
 
-/// reserve(n) for all n: Ok => capacity >= len+n and exclusive ownership (a following append of
-/// <= min(n,6) bytes issues no request and leaves every sharer alone).
-pub fn reserve_promise(kind: u8, fam: u8, n0: usize, cap: usize, ns: u8, len: usize, la: usize, lb: usize, tgt_clone: bool, tf: bool) {
+/// reserve(n): Ok => capacity >= len+n and exclusive ownership.
+/// `small == false`: n ranges over all usize, only len/capacity/sharers are observed afterwards
+/// (a symbolic capacity up to 2^40 together with content reads does not scale).
+/// `small == true`: n in 3..=40 and a following append of 3 bytes must issue no request, must not
+/// move the text and must leave every sharer alone (exclusive ownership + real room).
+pub fn reserve_promise(kind: u8, fam: u8, n0: usize, cap: usize, ns: u8, len: usize, la: usize, lb: usize, tgt_clone: bool, small: bool, tf: bool) {
     let mut s = build(kind, fam, n0, cap, ns, len, la, lb, tgt_clone);
     let sa = see(&s.a);
     let sb = see(&s.b);
     let n: usize = kani::any();
+    if small {
+        kani::assume(n >= 3 && n <= 40);
+    }
     let len0 = s.t.len();
     let r = s.t.try_reserve(n);
     if r.is_ok() {
         assert!(len0.checked_add(n).is_some(), "[C11] reserve(n) Ok although len+n overflows");
         assert!(s.t.capacity() >= len0 + n, "[C11] capacity() < len()+n after a successful reserve(n)");
-        check_handle(&s.t, &s.m);
-        if n >= 3 {
+        assert!(s.t.len() == len0, "[C11] reserve changed len()");
+        if small {
+            check_handle(&s.t, &s.m);
             let p0 = s.t.as_str().as_ptr();
             let a = any_str(3, false);
             shim::forbid(true);
@@ -215,13 +224,31 @@ pub fn reserve_promise(kind: u8, fam: u8, n0: usize, cap: usize, ns: u8, len: us
             shim::forbid(false);
             s.m.push_bytes(a.bytes());
             assert!(s.t.as_str().as_ptr() == p0, "[C11] text moved on an append within reserved room");
+            check_handle(&s.t, &s.m);
         }
         kani::cover!(n > 100, "large reserve granted");
+    } else {
+        assert!(!small, "[C11] a small reserve failed with a healthy allocator");
     }
-    check_handle(&s.t, &s.m);
     check_unchanged(&s.a, &s.ma, &sa);
     check_unchanged(&s.b, &s.mb, &sb);
-    epilogue(s, tf);
+    if small {
+        epilogue(s, tf);
+    } else {
+        // drop without reading content through a symbolic-capacity block
+        let St { t, a, b, .. } = s;
+        if tf {
+            drop(t);
+            drop(a);
+            drop(b);
+        } else {
+            drop(b);
+            drop(a);
+            drop(t);
+        }
+        assert!(shim::live() == 0, "[MEM] a block is still allocated after every handle was dropped (leak)");
+        kani::cover!(true, "end of harness reached");
+    }
 }
 
 /// with_capacity(n) for all n.
@@ -260,4 +287,320 @@ pub fn with_capacity_promise() {
     }
     assert!(shim::live() == 0, "[MEM] leak after with_capacity");
     kani::cover!(true, "end of harness reached");
+}
+
+// ---------------------------------------------------------------------------------------------
+// C05: allocation failure
+// ---------------------------------------------------------------------------------------------
+/// try_ form with the failure window open: any subset of the requests the operation issues is
+/// refused by the solver.
+pub fn step_fail(kind: u8, fam: u8, n0: usize, cap: usize, ns: u8, len: usize, la: usize, lb: usize, tgt_clone: bool, op: u8, k: usize, multi: bool, fail_at: usize, tf: bool) {
+    let mut s = build(kind, fam, n0, cap, ns, len, la, lb, tgt_clone);
+    shim::set_fail_at(fail_at);
+    let sa = see(&s.a);
+    let sb = see(&s.b);
+    let p0 = s.t.as_str().as_ptr();
+    let was_inline = p0 == (&s.t as *const LeanString as *const u8);
+    let cap0 = s.t.capacity();
+    let heap0 = s.t.is_heap_allocated();
+    let before = shim::snap();
+    shim::open_window();
+    let ok = ops::apply_try(op, k, multi, &mut s.t, &mut s.m);
+    shim::close_window();
+    let after = shim::snap();
+    let refused = after.fails > before.fails;
+    if ok {
+        assert!(!refused, "[C05] Ok although the allocator refused a request of this operation");
+        kani::cover!(after.reqs > before.reqs, "succeeded with an allocator request");
+    } else {
+        assert!(refused, "[C05] Err(ReserveError) although no request was refused");
+        assert!(s.t.capacity() == cap0, "[C05] capacity changed by a failed operation");
+        assert!(s.t.is_heap_allocated() == heap0, "[C05] storage kind changed by a failed operation");
+        if was_inline {
+            assert!(s.t.as_str().as_ptr() == (&s.t as *const LeanString as *const u8), "[C05] inline text moved by a failed operation");
+        } else {
+            assert!(s.t.as_str().as_ptr() == p0, "[C05] text moved by a failed operation");
+        }
+        kani::cover!(true, "operation failed with ReserveError");
+    }
+    // on Err the model was not advanced: the target must still hold the old value
+    check_handle(&s.t, &s.m);
+    check_unchanged(&s.a, &s.ma, &sa);
+    check_unchanged(&s.b, &s.mb, &sb);
+    check_live_blocks(&s);
+    // fully usable afterwards with a healthy allocator
+    s.t.push('!');
+    s.m.push_bytes(b"!");
+    check_handle(&s.t, &s.m);
+    check_unchanged(&s.a, &s.ma, &sa);
+    epilogue(s, tf);
+}
+
+/// Plain form with the window open: the only panic is `unwrap_with_msg` and only when a request
+/// was refused; a normal return means nothing was refused and the result is the model's.
+pub fn step_fail_plain(kind: u8, fam: u8, n0: usize, cap: usize, ns: u8, len: usize, la: usize, lb: usize, tgt_clone: bool, op: u8, k: usize, multi: bool, fail_at: usize, tf: bool) {
+    let mut s = build(kind, fam, n0, cap, ns, len, la, lb, tgt_clone);
+    shim::set_fail_at(fail_at);
+    let sa = see(&s.a);
+    let sb = see(&s.b);
+    let before = shim::snap();
+    shim::open_window();
+    unsafe { shim::S.forbid_after_fail = true };
+    ops::apply(op, k, multi, &mut s.t, &mut s.m);
+    unsafe { shim::S.forbid_after_fail = false };
+    shim::close_window();
+    assert!(shim::snap().fails == before.fails, "[C05] plain form returned normally although a request was refused");
+    check_handle(&s.t, &s.m);
+    check_unchanged(&s.a, &s.ma, &sa);
+    check_unchanged(&s.b, &s.mb, &sb);
+    epilogue(s, tf);
+}
+
+/// Display text of ReserveError (what the plain forms panic with).
+pub fn reserve_error_text() {
+    use core::fmt::Write;
+    struct Sink {
+        buf: [u8; 64],
+        n: usize,
+    }
+    impl Write for Sink {
+        fn write_str(&mut self, s: &str) -> core::fmt::Result {
+            let b = s.as_bytes();
+            let mut i = 0;
+            while i < b.len() {
+                if self.n < 64 {
+                    self.buf[self.n] = b[i];
+                    self.n += 1;
+                }
+                i += 1;
+            }
+            Ok(())
+        }
+    }
+    let mut k = Sink { buf: [0; 64], n: 0 };
+    let r = write!(k, "{}", ReserveError);
+    assert!(r.is_ok(), "[C05] ReserveError Display failed");
+    let want = b"Cannot allocate memory to hold LeanString";
+    assert!(k.n == want.len(), "[C05] ReserveError message length");
+    let mut i = 0;
+    while i < want.len() {
+        assert!(k.buf[i] == want[i], "[C05] ReserveError message text");
+        i += 1;
+    }
+    kani::cover!(true, "end of harness reached");
+}
+
+// ---------------------------------------------------------------------------------------------
+// C06: size arguments
+// ---------------------------------------------------------------------------------------------
+/// try_reserve(n) / reserve(n) over the whole usize range, split into three classes that together
+/// cover every value (a symbolic capacity up to 2^40 together with content reads does not scale):
+/// `class` 0: n <= 40 (all content checks), 1: 40 < n <= 2^40-64 (granted; only len/capacity/
+/// block size/sharers are observed), 2: n > 2^40-64 up to usize::MAX (must fail cleanly).
+pub fn sizes_reserve(kind: u8, fam: u8, n0: usize, cap: usize, ns: u8, len: usize, la: usize, lb: usize, tgt_clone: bool, plain: bool, class: u8, tf: bool) {
+    let mut s = build(kind, fam, n0, cap, ns, len, la, lb, tgt_clone);
+    let sa = see(&s.a);
+    let sb = see(&s.b);
+    let n: usize = kani::any();
+    match class {
+        0 => kani::assume(n <= 40),
+        1 => kani::assume(n > 40 && n <= shim::LIMIT - 64),
+        _ => kani::assume(n > shim::LIMIT - 64),
+    }
+    let len0 = s.t.len();
+    let cap0 = s.t.capacity();
+    let p0 = s.t.as_str().as_ptr();
+    let heap0 = s.t.is_heap_allocated();
+    let was_inline = p0 == (&s.t as *const LeanString as *const u8);
+    let ok = if plain {
+        s.t.reserve(n);
+        true
+    } else {
+        s.t.try_reserve(n).is_ok()
+    };
+    if ok {
+        assert!(class != 2, "[C06] reserve(n) succeeded although the allocator cannot serve n bytes");
+        assert!(len0.checked_add(n).is_some(), "[C06] reserve(n) succeeded although len+n overflows usize");
+        assert!(s.t.capacity() >= len0 + n, "[C06] capacity() < len()+n after a successful reserve(n)");
+        assert!(s.t.len() == len0, "[C06] reserve changed len()");
+        if s.t.is_heap_allocated() {
+            let p = s.t.as_str().as_ptr();
+            assert!(shim::block_size_of_text_ptr(p) == s.t.capacity() + 16, "[C06] block smaller than the capacity written to its header");
+        }
+        kani::cover!(n > (1 << 30), "huge reserve granted");
+    } else {
+        assert!(class == 2, "[C06] reserve(n) failed although the request could have been served");
+        assert!(s.t.capacity() == cap0 && s.t.is_heap_allocated() == heap0, "[C06] failed reserve changed capacity/storage");
+        if was_inline {
+            assert!(s.t.as_str().as_ptr() == (&s.t as *const LeanString as *const u8), "[C06] failed reserve moved the text");
+        } else {
+            assert!(s.t.as_str().as_ptr() == p0, "[C06] failed reserve moved the text");
+        }
+        kani::cover!(true, "reserve refused");
+    }
+    check_unchanged(&s.a, &s.ma, &sa);
+    check_unchanged(&s.b, &s.mb, &sb);
+    if class == 1 {
+        // granted with a symbolic capacity: drop without reading content through that block
+        let St { t, a, b, .. } = s;
+        if tf {
+            drop(t);
+            drop(a);
+            drop(b);
+        } else {
+            drop(b);
+            drop(a);
+            drop(t);
+        }
+        assert!(shim::live() == 0, "[MEM] a block is still allocated after every handle was dropped (leak)");
+        kani::cover!(true, "end of harness reached");
+    } else {
+        check_handle(&s.t, &s.m);
+        check_live_blocks(&s);
+        // still a working string
+        s.t.push('!');
+        s.m.push_bytes(b"!");
+        check_handle(&s.t, &s.m);
+        epilogue(s, tf);
+    }
+}
+
+/// extend() driven by an iterator with a solver-chosen size_hint lower bound and <= 1 item.
+pub fn sizes_extend(kind: u8, fam: u8, n0: usize, cap: usize, ns: u8, len: usize, la: usize, lb: usize, tgt_clone: bool, tf: bool) {
+    let mut s = build(kind, fam, n0, cap, ns, len, la, lb, tgt_clone);
+    let sa = see(&s.a);
+    let sb = see(&s.b);
+    let lo: usize = kani::any();
+    let has: bool = kani::any();
+    let c = any_char();
+    s.t.extend(ops::Hint { lo, item: if has { Some(c.c) } else { None } });
+    if has {
+        s.m.push_bytes(&c.bytes[..c.w]);
+    }
+    check_handle(&s.t, &s.m);
+    check_unchanged(&s.a, &s.ma, &sa);
+    check_unchanged(&s.b, &s.mb, &sb);
+    check_live_blocks(&s);
+    kani::cover!(lo > (1 << 57), "size hint beyond the 56-bit limit");
+    epilogue(s, tf);
+}
+
+/// collect() from an iterator with a solver-chosen size_hint lower bound and <= 1 item.
+pub fn sizes_collect() {
+    let lo: usize = kani::any();
+    let has: bool = kani::any();
+    let c = any_char();
+    let t: LeanString = ops::Hint { lo, item: if has { Some(c.c) } else { None } }.collect();
+    let mut m = ModelStr::from_bytes_bounded(b"", 8);
+    if has {
+        m.push_bytes(&c.bytes[..c.w]);
+    }
+    check_handle(&t, &m);
+    kani::cover!(lo > (1 << 57), "size hint beyond the 56-bit limit");
+    kani::cover!(lo > 16 && lo < 1000 && t.is_heap_allocated(), "hint honoured");
+    drop(t);
+    assert!(shim::live() == 0, "[MEM] leak after collect");
+    kani::cover!(true, "end of harness reached");
+}
+
+/// try_shrink_to(n) for all n never fails with a healthy allocator and keeps INV (C13 has the
+/// capacity postconditions).
+pub fn sizes_shrink(kind: u8, fam: u8, n0: usize, cap: usize, ns: u8, len: usize, la: usize, lb: usize, tgt_clone: bool, tf: bool) {
+    let mut s = build(kind, fam, n0, cap, ns, len, la, lb, tgt_clone);
+    let sa = see(&s.a);
+    let sb = see(&s.b);
+    let n: usize = kani::any();
+    let r = s.t.try_shrink_to(n);
+    assert!(r.is_ok(), "[C06] try_shrink_to(n) failed with a healthy allocator");
+    check_handle(&s.t, &s.m);
+    check_unchanged(&s.a, &s.ma, &sa);
+    check_unchanged(&s.b, &s.mb, &sb);
+    check_live_blocks(&s);
+    epilogue(s, tf);
+}
+
+
+// ---------------------------------------------------------------------------------------------
+// C07: index arguments
+// ---------------------------------------------------------------------------------------------
+/// `iop`: 0 insert(rep char k) 1 insert_str(k) 2 remove 3 truncate; `try_form` selects try_*.
+/// polarity `bad == false`: every index String accepts is accepted and gives String's result
+/// (the try_ forms must return Ok).  `bad == true`: every index String panics on panics here -
+/// the sentinel cover behind the call must be unreachable - and nothing is requested from the
+/// allocator before the panic.
+pub fn idx(kind: u8, fam: u8, n0: usize, cap: usize, ns: u8, len: usize, la: usize, lb: usize, tgt_clone: bool, iop: u8, k: usize, try_form: bool, bad: bool, tf: bool) {
+    let mut s = build(kind, fam, n0, cap, ns, len, la, lb, tgt_clone);
+    let sa = see(&s.a);
+    let sb = see(&s.b);
+    let i: usize = kani::any();
+    let must_panic = match iop {
+        0 | 1 => s.m.insert_panics(i),
+        2 => s.m.remove_panics(i),
+        _ => s.m.truncate_panics(i),
+    };
+    kani::assume(must_panic == bad);
+    if bad {
+        shim::forbid(true);
+    }
+    match iop {
+        0 => {
+            let c = rep_char(k);
+            if try_form {
+                let r = s.t.try_insert(i, c.c);
+                assert!(r.is_ok(), "[C07] try_insert returned Err on a valid index");
+            } else {
+                s.t.insert(i, c.c);
+            }
+            if !bad {
+                s.m.insert_bytes(i, &c.bytes[..c.w]);
+            }
+        }
+        1 => {
+            let a = any_str(k, false);
+            if try_form {
+                let r = s.t.try_insert_str(i, a.as_str());
+                assert!(r.is_ok(), "[C07] try_insert_str returned Err on a valid index");
+            } else {
+                s.t.insert_str(i, a.as_str());
+            }
+            if !bad {
+                s.m.insert_bytes(i, a.bytes());
+            }
+        }
+        2 => {
+            let c = if try_form {
+                let r = s.t.try_remove(i);
+                assert!(r.is_ok(), "[C07] try_remove returned Err on a valid index");
+                r.unwrap_or('?')
+            } else {
+                s.t.remove(i)
+            };
+            if !bad {
+                let x = s.m.remove(i);
+                assert!(c as u32 == x, "[C07] remove returned a different char than String::remove");
+            }
+        }
+        _ => {
+            if try_form {
+                let r = s.t.try_truncate(i);
+                assert!(r.is_ok(), "[C07] try_truncate returned Err");
+            } else {
+                s.t.truncate(i);
+            }
+            if !bad {
+                s.m.truncate(i);
+            }
+        }
+    }
+    if bad {
+        kani::cover!(true, "call returned although String panics for this index");
+        shim::forbid(false);
+        core::mem::forget(s);
+    } else {
+        check_handle(&s.t, &s.m);
+        check_unchanged(&s.a, &s.ma, &sa);
+        check_unchanged(&s.b, &s.mb, &sb);
+        check_live_blocks(&s);
+        epilogue(s, tf);
+    }
 }
